@@ -76,6 +76,26 @@ pub fn check_against_truth(d: &Driver, ex: &Exchange, truth: &Truth, ref_head: O
             }
         }
     }
+    // which responses were handed to the caller, in order: interim 100s nobody awaited (the first of them is
+    // passed over when the request carried an expectation that was never awaited, or was given up), then the
+    // final one - the same whatever the segmentation
+    {
+        let mut interim = ex.unsolicited_100;
+        if interim > 0 && ex.cfg.expect_100() && (!ex.cfg.sends_body() || matches!(ex.handshake, Handshake::GiveUp(_))) {
+            // the wait for a 100 was never settled (nothing awaited, or given up): the first 100 is "the late one"
+            interim -= 1;
+        }
+        if matches!(ex.handshake, Handshake::Late100(_)) {
+            interim += ex.extra_interim;
+        }
+        let mut want: Vec<u16> = vec![100; interim];
+        want.push(ex.head.status);
+        let got: Vec<u16> = d.response_log.iter().filter_map(|(_, _, s)| *s).collect();
+        if got != want {
+            rec.fail(&format!("{}/responses-handed-out", sig), format!("responses handed to the caller {:?}, the stream holds {:?} to hand out (handshake {:?})", got, want, ex.handshake));
+            return false;
+        }
+    }
     if d.resp_body != truth.body_data {
         rec.fail(
             &format!("{}/response-body", sig),
